@@ -1,6 +1,7 @@
 import Genq.Props.C09
 open Genq.TypeMap
 open Genq.Names
+open Genq
 #print axioms C09_match_iff_same_selection
 #print axioms C09_reuse_only_same_need
 #print axioms C09_resolved_requests_hold
@@ -14,3 +15,6 @@ open Genq.Names
 #print axioms C09_unrelated_operations_never_share_names
 #print axioms C09_name_ends_with_type
 #print axioms C09_naming_is_not_injective
+#print axioms C09_naming_tie
+#print axioms C09_typemap_tie
+#print axioms C09_selectionsMatch_tie
